@@ -325,3 +325,31 @@ Proof.
       assert (align_up v step < 2 ^ 64) by lia.
       rewrite Z.mod_small in Eg by lia. lia.
 Qed.
+
+(* ---------- Prop-level restatements of the sweeps ---------- *)
+Lemma size_classes_sound_proof s :
+  1 <= s <= 8127 ->
+  s <= obj_size s /\ obj_size (obj_size s) = obj_size s /\ obj_size s <= obj_size (s + 1) /\
+  (s <= 8 -> obj_size s mod 8 = 0) /\ (8 < s -> obj_size s mod 16 = 0) /\
+  0 <= obj_index s < mal_numBlockBins /\ obj_index (obj_size s) = obj_index s /\ obj_index s <= obj_index (s + 1) /\
+  obj_size s < mal_minLargeObjectSize /\ 1 <= objs_per_slab (obj_size s).
+Proof.
+  intros Hs. pose proof (size_class_props s ltac:(change mal_minLargeObjectSize with 8129; lia)) as H.
+  unfold size_ok in H. repeat (apply andb_prop in H; destruct H as [H ?]).
+  destruct (s <=? 8) eqn:E8; repeat split; try lia.
+Qed.
+
+Lemma find_object_recovers_proof osz k :
+  In osz fit_sizes -> 1 <= k <= objs_per_slab osz ->
+  let off0 := bump_offset osz k in
+  find_object osz off0 = off0 /\
+  forall j, 0 <= j < 64 -> let u := align_up off0 128 + 128 * j in u < off0 + osz -> find_object osz u = off0.
+Proof.
+  intros Hin Hk off0.
+  pose proof find_object_sweep as H. rewrite forallb_forall in H. specialize (H _ Hin).
+  unfold find_ok_size in H.
+  pose proof (zrange_forall _ 1 (objs_per_slab osz) H k ltac:(lia)) as Hk2. unfold find_ok_obj in Hk2.
+  fold off0 in Hk2. apply andb_prop in Hk2. destruct Hk2 as [H0 Hj]. split; [lia|].
+  intros j Hjr u Hu. pose proof (zrange_forall _ 0 64 Hj j ltac:(lia)) as Hx. cbn beta zeta in Hx.
+  fold u in Hx. destruct (off0 + osz <=? u) eqn:E; cbn in Hx; lia.
+Qed.
